@@ -99,9 +99,19 @@ def run(chk):
                 first_bad = first_bad or ("varpc_n(float)", n, str(rf), str(float(want)))
             if want >= 0:
                 rs = core.call_real(lambda: float(st.stdpc_n(np.array(n))))
-                if rs[0] != "ok" or abs(rs[1] ** 2 - float(want)) > 1e-9 * max(1e-9, abs(float(want))) + 1e-15:
-                    first_bad = first_bad or ("stdpc_n", n, str(rs), str(float(want)))
-    if first_bad:
+                # (when the exact variance estimate is 0 the float expression may round to -1e-16 and its root to nan: rounding, not claimed)
+                isnan = rs[0] == "ok" and math.isnan(rs[1])
+                if rs[0] != "ok" or (isnan and want > 1e-12) or (not isnan and abs(rs[1] ** 2 - float(want)) > 1e-9 * max(1e-9, abs(float(want))) + 1e-15):
+                    first_bad = first_bad or ("stdpc_n", n, str(rs), f"sqrt({float(want)})")
+                rs2 = core.call_real(lambda: float(st.stdpc([f"v{i}" for i, c in enumerate(n) for _ in range(c)])))
+                isnan2 = rs2[0] == "ok" and math.isnan(rs2[1])
+                if rs2[0] != "ok" or (isnan2 and want > 1e-12) or (not isnan2 and abs(rs2[1] ** 2 - float(want)) > 1e-9 * max(1e-9, abs(float(want))) + 1e-15):
+                    first_bad = first_bad or ("stdpc", n, str(rs2), f"sqrt({float(want)})")
+    if first_bad and first_bad[0] in ("stdpc_n", "stdpc"):
+        # the property states it outright: stdpc / stdpc_n return the square root of the variance estimate for the same counts
+        chk.violation(f"C06|{first_bad[0]}|not-sqrt-of-varpc", f"{first_bad[0]}({first_bad[1]}) = {first_bad[2]} is not {first_bad[3]}",
+                      {"n": first_bad[1], "real": first_bad[2], "want": first_bad[3]})
+    elif first_bad:
         chk.broken_obligations.append(f"corr:{first_bad[0]}~model differs on n={first_bad[1]}: real={first_bad[2][:120]} model={first_bad[3][:120]}")
 
     # pc / stdpc on samples (counting wrappers)
